@@ -239,7 +239,16 @@ def rtLine (j : Json) : String :=
       ("text-not-a-fixpoint-reordered", !(str j "fmt2" == "ret" && !sameText wide (nats j "text2") text
           && sameText true (nats j "text2") text)),
       ("text-not-a-fixpoint", str j "fmt2" == "ret" && sameText wide (nats j "text2") text),
-      ("scanner-goroutine-left-behind", !bool pj "leak")]
+      ("scanner-goroutine-left-behind", !bool pj "leak"),
+      -- the sign of a zero is part of the number
+      ("negative-zero-lost", !canon || !has j "nz" || (match nats j "nz" with | [a, b] => a == b | _ => false)),
+      -- the other entry points named by the property write and read the same notation
+      ("string-method-differs", !has j "str" ||
+          (str (fld j "str") "out" == "ret" && sameText wide (nats (fld j "str") "text") text)),
+      ("module-format-differs", !has j "modfmt" ||
+          (str (fld j "modfmt") "out" == "ret" && sameText wide (nats (fld j "modfmt") "text") text)),
+      ("module-parse-differs", !has j "modparse" || (str (fld j "modparse") "out" == out &&
+          (out != "ret" || bool (fld j "modparse") "eq")))]
   -- the externals' contract of the round-trip theorem, on every shipped leaf text
   let leafOk := leaves.all fun p => leafLexOk p.2
   -- inside the theorem's hypotheses (canonical value within the limit, contract holds) C10_roundtrip predicts
